@@ -324,10 +324,11 @@ def tree_tie(ctx, cases):
     trees = []
     for abbr, cfg, meta in cases:
         text = cfg.get('text')
-        t = text_tree.impl_tree(abbr, text)
+        mr = cfg.get('maxRepeat')
+        t = text_tree.impl_tree(abbr, text, mr)
         trees.append(t)
         ctx.count_eval()
-        wires.append(text_tree.enc_case(abbr, text))
+        wires.append(text_tree.enc_case(abbr, text, mr))
         # tree-level oracle: `p{T}` yields the single node p whose value is [unescape T]
         if meta.get('kind') in ('text', 'exh:text') and abbr.startswith('p{') and abbr.endswith('}'):
             V = g.unescape(abbr[2:-1])
@@ -351,11 +352,35 @@ def tree_tie(ctx, cases):
     c = ctx.cov['correspondence'].setdefault('abbreviation_tree', {'cases': 0, 'disagreements': 0})
     c['cases'] += len(wires)
     c['disagreements'] += dis
+    # the SPEC of C04_wrap_implicit / C02_limit_full_with_wrap (convert_w: unroll_w + place_line + finish_w, extracted
+    # from proofs/WrapFull.v by run/WrapRun.v) against the implementation's tree: every case, every text, every limit
+    smodel = ctx.model('wrap')
+    sdis = 0
+    if smodel is not None:
+        outs = smodel.run(wires)
+        for (abbr, cfg, meta), t, w in zip(cases, trees, outs):
+            sp = text_tree.decode_tree(w)
+            if t[0] == 'recursion':
+                continue
+            if t[0] != 'ok' and sp[0] != 'ok' and t[0] == sp[0] == 'internal':
+                continue
+            if sp != t:
+                # the spec is total where the converter raises (a Repeater token inside a value cannot come out of
+                # the tokenizer; `$#` never raises after fix fb6dafb): any difference is reported
+                sdis += 1
+                if sdis <= 5:
+                    ctx.say('DISAGREE C04 wrap spec %r text=%r maxRepeat=%r\n  impl %r\n  spec %r'
+                            % (abbr, cfg.get('text'), cfg.get('maxRepeat'), str(t)[:400], str(sp)[:400]))
+                    ctx.broken.append({'kind': 'correspondence', 'file': 'wrap-spec', 'input': abbr, 'text': cfg.get('text'),
+                                       'maxRepeat': cfg.get('maxRepeat'), 'impl': repr(t)[:300], 'spec': repr(sp)[:300]})
+    c = ctx.cov['correspondence'].setdefault('wrap_spec_convert_w', {'cases': 0, 'disagreements': 0})
+    c['cases'] += len(wires) if smodel is not None else 0
+    c['disagreements'] += sdis
 
 
 # ---------------------------------------------------------------- run
 def run(ctx):
-    ok = ctx.build(['props/C04.vo', 'props/C04Wrap.vo', 'run/MarkupRun.vo', 'run/TextRun.vo'])
+    ok = ctx.build(['props/C04.vo', 'props/C04Wrap.vo', 'run/MarkupRun.vo', 'run/TextRun.vo', 'run/WrapRun.vo'])
     if ok:
         ctx.obligations('props/C04.v')
         ctx.obligations('props/C04Wrap.v')
